@@ -175,9 +175,13 @@ package wallet
 //@   invariant 1 index_from_eligible: forall k wire.OutPoint :: {eligibleByOutpoint[k]} eligibleByOutpoint != nil && has(eligibleByOutpoint, k)
 //@       ==> eligibleByOutpoint[k].OutPoint == k && (exists i Int :: 0 <= i && i < len(eligible) && eligible[i] == eligibleByOutpoint[k])
 //@   invariant 2 selected_count: len(eligibleSelectedUtxo) == rangeindex + 1 && rangeindex + 1 <= len(selectedUtxos)
-//@   invariant 2 selected_indexed: forall j Int :: {selectedUtxos[j]} 0 <= j && j < len(eligibleSelectedUtxo) ==> eligibleByOutpoint != nil && has(eligibleByOutpoint, selectedUtxos[j])
+// (a selected outpoint is taken out of the index when it is used, so that a
+// repeated selection is refused: the inputs handed on are pairwise distinct)
+//@   invariant 2 index_only_shrinks: eligibleByOutpoint != nil && forall k wire.OutPoint :: {eligibleByOutpoint[k]} has(eligibleByOutpoint, k) ==> loopentry(has(eligibleByOutpoint, k)) && eligibleByOutpoint[k] == loopentry(eligibleByOutpoint[k])
+//@   invariant 2 selected_taken: forall j Int :: {selectedUtxos[j]} 0 <= j && j < len(eligibleSelectedUtxo) ==> !has(eligibleByOutpoint, selectedUtxos[j]) && loopentry(has(eligibleByOutpoint, selectedUtxos[j]))
 //@   invariant 2 selected_outpoint: forall j Int :: {eligibleSelectedUtxo[j]} 0 <= j && j < len(eligibleSelectedUtxo) ==> eligibleSelectedUtxo[j].OutPoint == selectedUtxos[j]
-//@   invariant 2 selected_from_index: forall j Int :: {eligibleSelectedUtxo[j]} 0 <= j && j < len(eligibleSelectedUtxo) ==> eligibleSelectedUtxo[j] == eligibleByOutpoint[selectedUtxos[j]]
+//@   invariant 2 selected_from_index: forall j Int :: {eligibleSelectedUtxo[j]} 0 <= j && j < len(eligibleSelectedUtxo) ==> eligibleSelectedUtxo[j] == loopentry(eligibleByOutpoint[selectedUtxos[j]])
+//@   invariant 2 selected_distinct: forall j Int, k Int :: {selectedUtxos[j], selectedUtxos[k]} 0 <= j && j < k && k < len(eligibleSelectedUtxo) ==> selectedUtxos[j] != selectedUtxos[k]
 
 // ---------------------------------------------------------------------------
 // C09 — the address-issuing critical section. HELD(w): the wallet's
